@@ -118,9 +118,12 @@ def run(r):
     # end-to-end composition (Pipeline.tla): generator -> kernel -> antennas -> writer -> file -> reader -> file generator -> kernel
     from checks import pipe
     pipe.stage(r, 400 if thorough else 48)
+    # whole-scene symmetries (SceneRel.tla): quarter turns / horizontal shifts of event + detector, antenna and particle order
+    from checks import scene
+    scene.stage(r, 480 if thorough else 48, 8 if thorough else 5)
     r.assumptions += ['scenario of a recorded run is derived from the observation (solutions reported by the real tracer, '
                       'off-cone computed from public path attributes)',
-                      'physical correctness of signals is not examined (C01/C03/C07)']
+                      'physical correctness of signals is examined in C01 / C03 / C07, not here']
 
 
 def _pad(e):
